@@ -10,6 +10,8 @@ import json, os, re, shutil, subprocess, sys, time, random, hashlib
 ROOT = os.path.dirname(os.path.dirname(os.path.abspath(__file__)))
 REPO = os.environ.get("VERIF_REPO", "/repo")
 BUILD = os.environ.get("VERIF_BUILD") or os.path.join(ROOT, "build")
+# a run pointed at another tree (a seeded change in a scratch worktree) keeps its evidence and replays out of /verif proper
+OUT = ROOT if REPO == "/repo" else BUILD
 SPEC = os.path.join(ROOT, "spec")
 HARNESS = os.path.join(ROOT, "harness")
 BIN = os.path.join(BUILD, "bin")
@@ -379,7 +381,7 @@ class Check:
         self.work = os.path.join(BUILD, "work", prop + ("" if tier == "quick" else "." + tier) + (".replay" if os.environ.get("VERIF_REPLAY") else ""))
         shutil.rmtree(self.work, ignore_errors=True)
         os.makedirs(self.work, exist_ok=True)
-        self.replays = os.path.join(ROOT, "replays", prop)
+        self.replays = os.path.join(OUT, "replays", prop)
         self.known = [k for k in load_known() if k["property"] == prop]
 
     # ---- building
@@ -469,8 +471,8 @@ class Check:
         cov["known_findings_reported"] = [k for k, _ in self.known_hits]
         ev = dict(property_id=self.prop, tier=self.tier, seed=self.seed, level=self.level, coverage=cov,
                   assumptions=self.assumptions, wall_s=round(wall, 2), violations=len(self.violations))
-        os.makedirs(os.path.join(ROOT, "evidence"), exist_ok=True)
-        json.dump(ev, open(os.path.join(ROOT, "evidence", self.prop + ".json"), "w"), indent=1)
+        os.makedirs(os.path.join(OUT, "evidence"), exist_ok=True)
+        json.dump(ev, open(os.path.join(OUT, "evidence", self.prop + ".json"), "w"), indent=1)
         for fid, what in self.known_hits:
             print("KNOWN-FINDING: property=%s %s %s" % (self.prop, fid, what))
         for what, replay in self.violations:
